@@ -76,7 +76,7 @@ class Nest:
         return inner['iter_def_bb'] is not None and inner['iter_def_bb'] in outer['loop']['body']
 
     # ------------------------------------------------------------------------------------------------------
-    def iteration(self, inner, stops, models=(), params=None, max_paths=400, opaque=()):
+    def iteration(self, inner, stops, models=(), params=None, max_paths=400, opaque=(), havoc=None):
         """Symbolic execution of ONE iteration of loop `inner` (a loop record): the function is executed from its entry with
         symbolic parameters, every enclosing loop is entered once with a fresh symbolic item `item<header>`, loops that do
         not enclose `inner` are skipped (their iterator is exhausted), and from the start of inner's body execution runs
@@ -105,6 +105,8 @@ class Nest:
             if not (isinstance(o.ret, tuple) and o.ret[0] == 'stopped'):
                 continue
             fid = min(o.st.frames)          # the outermost frame is the function's own
+            for l, v in (havoc or {}).items():
+                o.st.frames[fid][l] = v
             res += sx.run_from(b, inner['some'], o.st, fid, set(stops) | {inner['header']})
         return sx, res
 
@@ -352,3 +354,55 @@ def full_product_reduction(f, body, is_leaf, kind, want_sources):
         return ok, ('any over the full product: ' if ok else 'the result is not "any pair": ') + why
     ok, why, _ = n.sum_reduction([lbi])
     return ok, ('sum over the full product: ' if ok else 'the result is not the sum over pairs: ') + why
+
+
+def single_loop_sum(f, body, models=(), opaque=()):
+    """Decide: the body returns  0 + sum over ALL items of ONE source sequence of a per-item term.
+    Returns (ok, why, info) with info = {'nest', 'loop', 'source': items_source(..), 'terms': [(pc, sym value)], 'item': symbol name}.
+    The term is obtained by executing one iteration symbolically with the accumulator set to the symbol `acc`."""
+    from .sym import SYM
+    from .terms import Norm, NotNumeric
+    n = Nest(f, body, yields=False)
+    o = n.tr.origin({'k': 'move', 'l': 0, 'p': []})
+    if o['o'] != 'local' or o['p']:
+        return False, 'the result is not an accumulator variable (%s)' % o['o'], None
+    acc = o['l']
+    defs = [d for d in n.tr.defs.of(acc) if d[0] in n.cfg.reach]
+    loops = [d for d in n.loops if any(x[0] in d['loop']['body'] for x in defs)]
+    loops.sort(key=lambda d: len(d['loop']['body']))
+    if not loops:
+        return False, 'the accumulator is not updated in a loop', None
+    d = loops[0]
+    if [x for x in n.loops if x is not d and d['header'] in x['loop']['body']]:
+        return False, 'the accumulating loop is nested inside another loop', None
+    if d['adaptors']:
+        return False, 'the loop passes through adaptor(s) %s that can drop, truncate or pair up elements' % d['adaptors'], None
+    inits = [x for x in defs if x[0] not in d['loop']['body']]
+    ok_init = len(inits) >= 1 and all(x[2] == 'assign' and x[3]['r'] == 'use' and x[3]['a'].get('k') == 'const'
+                                      and (x[3]['a'].get('f') in ('0.0', '-0.0') or x[3]['a'].get('int') == '0') for x in inits)
+    if not ok_init:
+        return False, 'the accumulator does not start at 0', None
+    if not n.always_entered(d):
+        return False, 'the loop is skipped on some path', None
+    src = items_source(f, n.tr, {'k': 'copy', 'l': d['iter_local'], 'p': []}) if d['iter_local'] is not None else 'no iterator local'
+    sx, outs = n.iteration(d, set(), models=models, opaque=opaque, havoc={acc: SYM('acc')})
+    if not outs or sx.aborted:
+        return False, 'one iteration of the loop is not loop-free', None
+    terms = []
+    nm = Norm()
+    for oc in outs:
+        if not (isinstance(oc.ret, tuple) and oc.ret[0] == 'stopped' and oc.ret[1] == d['header']):
+            return False, 'an iteration can leave the loop early', None
+        v = sx.deep(oc.st, oc.st.frames[min(oc.st.frames)].get(acc))
+        try:
+            inc = nm.rf(v) - nm.atom('acc')
+        except NotNumeric as ex:
+            return False, 'the accumulator update is not arithmetic: %s' % str(ex)[:80], None
+        if 'acc' in inc.canon().replace('acc(', ''):
+            # the increment must not depend on the running total
+            import re
+            if re.search(r'(?<![A-Za-z_.])acc(?![A-Za-z_(.])', inc.canon()):
+                return False, 'the update is not acc + term: %s' % inc.canon()[:120], None
+        terms.append((oc.pc, inc))
+    return True, 'result = 0 + sum over every item of the term', {'nest': n, 'loop': d, 'source': src, 'terms': terms,
+                                                                 'item': 'item%d' % d['header'], 'norm': nm, 'sx': sx}
